@@ -10,7 +10,7 @@
     suite's choice of WHAT to serialise, WHERE to cut and WHICH message to
     check), Go's crypto/sha*, crypto/cipher and crypto/x509 for H, AEAD open and
     key parsing. *)
-From CSS Require Import Lib.Base Lib.Cases Model.Manifest.
+From CSS Require Import Lib.Base Lib.Cases Model.Manifest Model.ManifestOrder.
 From Coq Require Strings.Byte.
 
 (** Compact byte-string literals: the shards write [zs [x5f; x4b; ...]] with the
@@ -141,7 +141,18 @@ Inductive case : Type :=
    that do not concern the hash (SignKM, WriteKM + NewKM, VerifyKM, SVN/ID
    change) -- each with what the call returned and the state observed on the
    object afterwards *)
-| CKmLife (st0 : kmstate) (steps : list (kmstep * obs unit * kmstate)) (ht : list (Z * bytes * bytes)).
+| CKmLife (st0 : kmstate) (steps : list (kmstep * obs unit * kmstate)) (ht : list (Z * bytes * bytes))
+(* the process configuration (Model/ManifestOrder.v): [c0] what the model says the
+   process holds at the start of a session, [obs0] what the harness read from
+   fiano's two package variables at that moment, then the entry points of
+   pkg/provisioning/bootguard called one after the other, each with the
+   configuration read after the call returned (or panicked) *)
+| CConf (c0 obs0 : pconf) (steps : list (entry * pconf))
+(* NewBPM + VerifyBPM on a file put together from whole elements of a verifying
+   signed BPM of generation [g] (element = (position of its structure ID in the
+   documented order or -1 for an unknown ID, number of the element in the signed
+   file)), in a process that started with [c0] and called [hist] before *)
+| COrder (g : Z) (c0 : pconf) (hist : list entry) (orig mut : list (Z * Z)) (r : obs unit).
 
 Definition unit_eqb (_ _ : unit) : bool := true.
 
@@ -174,6 +185,16 @@ Fixpoint life_ok (H : Z -> bytes -> bytes) (st : kmstate) (steps : list (kmstep 
   | (s, r, st_obs) :: t =>
       let st' := km_step H st s in
       obs_match unit_eqb r (km_step_outcome H st s) && kmstate_eqb st' st_obs && life_ok H st' t
+  end.
+
+Definition pconf_eqb (a b : pconf) : bool :=
+  Bool.eqb (strict_bg a) (strict_bg b) && Bool.eqb (strict_cbnt a) (strict_cbnt b).
+
+(** the model continues from ITS configuration *)
+Fixpoint conf_ok (c : pconf) (steps : list (entry * pconf)) : bool :=
+  match steps with
+  | [] => true
+  | (e, o) :: t => let c' := ep_conf e c in pconf_eqb c' o && conf_ok c' t
   end.
 
 Definition check (c : case) : bool :=
@@ -231,6 +252,9 @@ Definition check (c : case) : bool :=
       let K := key_env hpw st [] [] in
       zlist_eqb (encrypt_priv K pw (firstn nonce_size out) pem) out
   | CKmLife st0 steps ht => life_ok (table_H ht) st0 steps
+  | CConf c0 obs0 steps => pconf_eqb c0 obs0 && conf_ok c0 steps
+  | COrder g c0 hist orig mut r =>
+      obs_match unit_eqb r (session_verdict c0 hist (gen_of_Z g) orig mut)
   end.
 
 Definition mismatches := mismatches_by check.
